@@ -58,20 +58,36 @@ structure Leaves.WF (L : Leaves φ α) (e : Env) : Prop where
   outside : e.islands = true → ∀ f k, k ∉ L.map → k < L.nv → (L.jtf f)[k]? = some L.z
   empty : e.noRows = true → ∀ f, L.jtf f = List.replicate L.nv L.z
 
-/-- the island path of the primal solvers: gather (any content) – island solve – scatter -/
-theorem island_roundtrip (L : Leaves φ α) (e : Env) (h : L.WF e) (hi : e.islands = true) (f g : φ) :
-    ∃ v w, gatherL (L.jtf f) L.map = some v ∧ gatherL (L.jtf g) L.map = some w ∧
-      scatterL (L.jtf f) L.map w = some (L.jtf g) := by
-  obtain ⟨v, hv⟩ := gatherL_some (L.jtf f) L.map (fun k hk => by rw [h.len]; exact h.mapLt k hk)
-  obtain ⟨w, hw, hs⟩ := scatter_gather L.map (L.jtf f) (L.jtf g) (by rw [h.len, h.len])
+/-- the island path of the primal solvers: gather (any content) – island solve – scatter, starting from
+    any `qfrc_constraint` content `q` of length nv that is zero outside the islands -/
+theorem island_roundtrip (L : Leaves φ α) (e : Env) (h : L.WF e) (hi : e.islands = true) (q : List α)
+    (hq : q.length = L.nv) (hz : ∀ k, k ∉ L.map → k < L.nv → q[k]? = some L.z) (g : φ) :
+    ∃ v w, gatherL q L.map = some v ∧ gatherL (L.jtf g) L.map = some w ∧
+      scatterL q L.map w = some (L.jtf g) := by
+  obtain ⟨v, hv⟩ := gatherL_some q L.map (fun k hk => by rw [hq]; exact h.mapLt k hk)
+  obtain ⟨w, hw, hs⟩ := scatter_gather L.map q (L.jtf g) (by rw [hq, h.len])
     (fun k hk => by rw [h.len]; exact h.mapLt k hk)
     (by
       intro k hk
       by_cases hlt : k < L.nv
-      · rw [h.outside hi f k hk hlt, h.outside hi g k hk hlt]
-      · have h1 : (L.jtf f).length ≤ k := by rw [h.len]; exact Nat.le_of_not_lt hlt
+      · rw [hz k hk hlt, h.outside hi g k hk hlt]
+      · have h1 : q.length ≤ k := by rw [hq]; exact Nat.le_of_not_lt hlt
         have h2 : (L.jtf g).length ≤ k := by rw [h.len]; exact Nat.le_of_not_lt hlt
         rw [List.getElem?_eq_none h1, List.getElem?_eq_none h2])
   exact ⟨v, w, hv, hw, hs⟩
+
+/-- after the top-level `mju_zero` and the warm start, `qfrc_constraint` has nv entries and is zero
+    outside the islands — in the cold start only because of that `mju_zero` -/
+theorem warmQ_zero_outside (L : Leaves φ α) (e : Env) (h : L.WF e) (hi : e.islands = true) :
+    (warmQ L e (List.replicate L.nv L.z)).length = L.nv ∧
+    ∀ k, k ∉ L.map → k < L.nv → (warmQ L e (List.replicate L.nv L.z))[k]? = some L.z := by
+  unfold warmQ
+  split
+  · split
+    · split
+      · exact ⟨by simp, fun k _ hlt => by simp [hlt]⟩
+      · exact ⟨h.len _, fun k hk hlt => h.outside hi _ k hk hlt⟩
+    · exact ⟨h.len _, fun k hk hlt => h.outside hi _ k hk hlt⟩
+  · exact ⟨by simp, fun k _ hlt => by simp [hlt]⟩
 
 end MjProof.FwdConstraint
